@@ -9,7 +9,7 @@ THEOREMS = [
     "Sb.C01.duration_eq_sum", "Sb.C01.yaw_in_range",
     "Sb.Proofs.buildSegment_spec", "Sb.Proofs.seek_pos_spec", "Sb.Proofs.durLoop_spec", "Sb.Proofs.bezier_zero", "Sb.Proofs.bezier_one",
     "Sb.Proofs.bezier8", "Sb.Proofs.bezier4", "Sb.Proofs.fac_vals",
-    "Sb.C01.decodeSegs_chained", "Sb.C01.posAt_segment_start", "Sb.C01.posAt_segment_end", "Sb.C01.posAt_joins", "Sb.C01.posAt_zero",
+    "Sb.C01.decodeSegs_chained", "Sb.C01.posAt_segment_start", "Sb.C01.posAt_segment_end", "Sb.C01.posAt_joins", "Sb.C01.posAt_zero", "Sb.C01.position_eq_spec_of_block",
 ]
 ASSUMPTIONS = ["theorems are about exact rational arithmetic (secExact); float32 rounding of the implementation is bounded by the "
                "Lean-defined tolerance tolPos of Sb/Corr/Traj.lean (DESIGN.md section 4, C01)"]
